@@ -11,14 +11,14 @@ BOX_INV = ("INVARIANT IPartitionOfUnity\nINVARIANT IDerivativesSumToZero\nINVARI
            "CHECK_DEADLOCK FALSE\n")
 
 
-def box_cfg(maxdeg, maxcells, maxbreak, kinds=("clamped", "periodic", "cu")):
-    return ("INIT Init\nNEXT Next\nCONSTANTS MaxDeg = %d MaxCells = %d MaxBreak = %d Kinds = {%s}\n" % (
-        maxdeg, maxcells, maxbreak, ",".join('"%s"' % k for k in kinds))) + BOX_INV
+def box_cfg(maxdeg, maxcells, maxbreak, kinds=("clamped", "periodic", "cu"), uniform_only=False, mincells=1):
+    return ("INIT Init\nNEXT Next\nCONSTANTS MaxDeg = %d MaxCells = %d MaxBreak = %d Kinds = {%s} UniformOnly = %s MinCells = %d\n" % (
+        maxdeg, maxcells, maxbreak, ",".join('"%s"' % k for k in kinds), "TRUE" if uniform_only else "FALSE", mincells)) + BOX_INV
 
 
-def run_box(ctx, maxdeg, maxcells, maxbreak, kinds=("clamped", "periodic", "cu"), what=None):
+def run_box(ctx, maxdeg, maxcells, maxbreak, kinds=("clamped", "periodic", "cu"), what=None, uniform_only=False, mincells=1):
     from harness.core import Machinery
-    r = ctx.tlc("BSplinesMC", box_cfg(maxdeg, maxcells, maxbreak, kinds), workers=16, timeout=7200,
+    r = ctx.tlc("BSplinesMC", box_cfg(maxdeg, maxcells, maxbreak, kinds, uniform_only, mincells), workers=16, timeout=7200,
                 what=what or "B-spline basis identities, degree<=%d, cells<=%d, breaks in 0..%d" % (maxdeg, maxcells, maxbreak))
     if r.violated:
         raise Machinery("BSplines.tla violates its own identity %s (the oracle is wrong):\n%s" % (r.violated, (r.trace_text or "")[:2000]))
